@@ -1,5 +1,5 @@
 # C10 - Displayed bytes, addresses, ranges and JSON numbers are true
-import os, json, copy, collections, random
+import os, sys, re, json, copy, collections, random
 from concurrent.futures import ThreadPoolExecutor
 import vlib
 from vlib import Inconclusive
@@ -144,7 +144,27 @@ def judge_dumps(ctx, evs, name, arm):
 
 
 def run_harness(ctx, binp, args, timeout=1800):
-    r = ctx.run([binp] + args, check=True, timeout=timeout)
+    r = ctx.run([binp] + args, timeout=timeout)
+    if r.returncode != 0:
+        # fq runs inside the harness process: a Go panic whose innermost non-runtime frame is fq's own code (not the harness) means fq
+        # died while producing the display; confirmed by a second run before it is reported
+        def fq_frame(err):
+            if 'panic:' not in err and 'fatal error:' not in err:
+                return None
+            for m in re.finditer(r'^(github\.com/wader/fq/[^\s(]+)', err[err.find('goroutine'):], re.M):
+                if '/internal/verif/' not in m.group(1):
+                    return m.group(1)
+            return None
+        f1 = fq_frame(r.stderr)
+        r2 = ctx.run([binp] + args, timeout=timeout)
+        f2 = fq_frame(r2.stderr) if r2.returncode != 0 else None
+        if f1 and f1 == f2:
+            first = next((l for l in r.stderr.splitlines() if l.startswith(('panic:', 'fatal error:'))), '')[:200]
+            ctx.finding('display.crash@' + f1.split('/')[-1], 'fq dies while producing output (harness mode %s): %s' % (args[0], first),
+                        dict(mode=args[0], stderr=r.stderr[-3000:], one_line='harness c10 %s <cases> (see checks/c10.py)' % args[0]))
+            raise Inconclusive('harness mode %s stopped by a crash inside fq (reported above); the rest of this arm was not judged' % args[0])
+        sys.stderr.write(r.stderr[-4000:])
+        raise Inconclusive('command failed rc=%d: %s' % (r.returncode, ([binp] + args)[:3]))
     return r.stdout.strip()
 
 
